@@ -2,6 +2,7 @@
 # runs every registered check (quick by default) and prints a summary
 cd "$(dirname "$0")/.." || exit 2
 tier="${1:-quick}"
+mkdir -p .build
 rc=0
 for p in $(python3 -c "import json;print(' '.join(c['property_id'] for c in json.load(open('MANIFEST.json'))['checks']))"); do
   ./check "$p" "$tier" > ".build/run_all_$p.log" 2>&1; r=$?
